@@ -70,7 +70,8 @@ Fixpoint take_while {A} (f : A -> bool) (l : list A) : list A :=
 Definition nlen {A} (l : list A) : N := N.of_nat (length l).
 
 (** the characters after the last line break *)
-Definition last_line (cs : list chr) : list chr := rev (take_while (fun c => negb (is_nl c)) (rev cs)).
+Definition lrev {A} (l : list A) : list A := rev_append l [].   (* = rev l, in linear time *)
+Definition last_line (cs : list chr) : list chr := lrev (take_while (fun c => negb (is_nl c)) (lrev cs)).
 (** line = 1 + number of line breaks before; col = 1 + number of characters as the lexer
     counts them (every char except '\r') since the last line break *)
 Definition line_of (cs : list chr) : N := 1 + nlen (filter is_nl cs).
@@ -105,8 +106,8 @@ Definition strip_cr (cur : list chr) : list chr :=
   match cur with c :: r => if is_cr c then r else cur | [] => [] end.
 Fixpoint guard_lines (cs : list chr) (cur : list chr) : list (list chr) :=
   match cs with
-  | [] => match cur with [] => [] | _ => [rev (strip_cr cur)] end
-  | c :: r => if is_nl c then rev (strip_cr cur) :: guard_lines r [] else guard_lines r (c :: cur)
+  | [] => match cur with [] => [] | _ => [lrev (strip_cr cur)] end
+  | c :: r => if is_nl c then lrev (strip_cr cur) :: guard_lines r [] else guard_lines r (c :: cur)
   end.
 Definition GUARD_MAX : N := 65534.
 Definition guard_ok (cs : list chr) : bool :=
